@@ -49,6 +49,15 @@ CHECKS = {
         note='D_i taken from the real get_deformation at each concrete qubit; reals for probabilities; histories of '
              'length 1 (quick) / <= 2 (thorough).',
         technique='symbolic execution of real Python (symx) + z3; XOR normal form equality', ref='3/C08'),
+    'C19': dict(
+        text='read_range_input runs with the decimal literals symbolic as IEEE-754 doubles (float() = correctly rounded '
+             'quotient, np.arange = validated IEEE model); candidate-driven exploration + stand-alone QF_BVFP queries '
+             '(cvc5) decide that exactly (max-min)/step+1 values are returned, starting at min, none a step beyond max, '
+             'for every literal on the grid; get_direction_from_bias_ratio is decided over all real eta >= 0; '
+             'generate_input + read_input_dict are explored over solver-chosen bias-ratio lists on an in-memory FS.',
+        note='np.arange modelled (validated against real numpy on 3000 triples per run); value claim beyond the first '
+             'two elements follows numpy\'s own progression (ulps); files part is a finite realised configuration list.',
+        technique='symbolic execution of real Python with IEEE-754 terms (symx) + cvc5/z3 QF_BVFP; z3 NRA', ref='3/C19'),
     'C18': dict(
         text='The real error_probability (product and log form) runs on a fully symbolic error with arbitrary per-qubit '
              'distributions; z3 (LRA) shows every factor is the channel probability of the letter on that qubit, that '
@@ -77,6 +86,21 @@ CHECKS = {
              'variables e=[S|LX|LZ|D]v is used; H and the logicals are taken from the real object (C01/C02).',
         technique='symbolic execution of real Python (symx proxies) + z3 (XOR normal form, certified change of variables)',
         ref='3/C04'),
+    'C13': dict(
+        text='The real range parser / expander / simulation builder (_parse_all_ranges, expand_input_ranges, get_runs, '
+             'get_simulations, read_input_dict, _parse_*_dict, DirectSimulation.__init__) runs with SYMBOLIC parameter '
+             'values and recorder registries; z3 decides that the multiset of constructed (class, code params, noise '
+             'params, decoder params, rate) equals the requested Cartesian product for all values (duplicates included), '
+             'for every axis-length combination and spec form in the bound. Registry names and params round-trips are '
+             'finite ground tables over the real classes.',
+        note='Parameter values are opaque integers; registries stubbed by recorders for the expansion part only.',
+        technique='symbolic execution of real Python (symx) + z3 multiset equality; ground tables', ref='3/C13'),
+    'C14': dict(
+        text='The real run_parallel callback runs for every job index with a SYMBOLIC trial count (up to 10^6); z3 (LIA '
+             'with div/mod) decides per-input totals == trials, every task >= 1 trial, distinct result files, no '
+             'exception, for every (N, C, #inputs) with N, C <= 3 (quick) / 5 (thorough).',
+        note='glob / os / multiprocessing / print inside panqec.cli are recorder stubs.',
+        technique='symbolic execution of real Python (symx) + z3 LIA', ref='3/C14'),
     'C17': dict(
         text='The real in_codespace, is_logical_error and bsf_wt run on a fully symbolic Pauli operator; z3 shows no '
              'operator with zero syndrome, non-trivial logical action and weight < code.d exists and that weight d '
